@@ -54,6 +54,64 @@ CHECKS["C18"] = dict(
     technique="call-graph contract (re-entry multiplicity) decided by own fixpoint procedure + measured doubling stand-in",
 )
 
+CHECKS["C01"] = dict(
+    engine="gramref+pyvc", category="proof",
+    text="Rule-by-rule refinement of CPython's own grammar (verbatim 3.11 python.gram as specification): every shared rule has CPython's alternatives in "
+         "order, every extra alternative is gated by a xonsh-only lexeme, and ~80 grammar actions are proved to build the node CPython builds "
+         "(constructor, field binding, operator class, ctx); span meaning (last non-layout token), token filtering and the left-recursion wrapper are "
+         "proved from the real function bodies by z3. Whole-pipeline tree equality with ast.parse is a bounded stand-in (programs x layout variants).",
+    design_ref="DESIGN.md 5/C01, 3.5",
+    note="assumed: 3.12 delta rules (PEP 695/701), helper-laden reference actions not compared, seed-growing = left-recursive PEG semantics, "
+         "token-stream agreement (C09); syntactic unification; bounded stand-in never counted as proved.",
+    technique="refinement contracts against CPython's grammar (structural unification) + E1 VCs (z3) on span/filter functions",
+)
+CHECKS["C02"] = dict(
+    engine="gramref+pegir+pyvc", category="proof",
+    text="Parser.parse is proved (VCs from its real body) to return only what the requested pass returned and never None, so a failed first pass "
+         "always raises; first-pass acceptance on Python-lexicon input equals the reference grammar's by rule refinement plus L2 gating of every "
+         "extra alternative; start rules demand ENDMARKER, no rule matches ERRORTOKEN, every grammar literal is an operator/identifier. Verdict "
+         "agreement with ast.parse on ~23k token strings/mutations/prefixes is a bounded stand-in.",
+    design_ref="DESIGN.md 5/C02",
+    note="assumed: 3.12 delta rules; expect() compares strings regardless of token type (FSTRING_MIDDLE/MACRO_PARAM argument not machine-checked); "
+         "lexemes the C tokenizer rejects for its own reasons.",
+    technique="contract on Parser.parse (z3) + refinement/gating obligations on the generated parser's IR",
+)
+CHECKS["C03"] = dict(
+    engine="pyvc+pegir", category="proof",
+    text="Termination: z3 ranking certificate for same-index calls of all rules reachable from the entry points (left-recursive leaders cut at their "
+         "primed cache), strict progress at every repeated/gathered site, loop variants of the tokenizer's line and scan loops, of seed growing, of "
+         "get_last_non_whitespace_token, next_statement. Exception safety: every subscript/next()/assert/unpacking/None-attribute in ~45 functions "
+         "under contract has a discharged safety VC and only allowed exception classes escape; EOF inside a string/f-string raises TokenError; "
+         "ENDMARKER discipline (never_past_end). Prefix/mutation/character-soup fuzz is the bounded stand-in.",
+    design_ref="DESIGN.md 5/C03",
+    note="not modelled: recursion/memory limits (known finding), functions without contract (regex dispatch, f-string frames, raw macro capture, builders "
+         "not yet under contract) are covered by the stand-in only; three known findings listed in known_findings.json.",
+    technique="VC generation from real function bodies (safety, variants, raises) discharged by z3/cvc5 + call-graph ranking",
+)
+CHECKS["C08"] = dict(
+    engine="pyvc+rx", category="proof",
+    text="Per-function postconditions on the real tokenize.py: next_statement (INDENT spans the measured blank prefix, zero-width DEDENTs, strictly "
+         "increasing indent stack), next_end_tokens (implicit NEWLINE rule, DEDENT count, single final ENDMARKER), _tokenize (cursor invariants, ends "
+         "with ENDMARKER); regex lemmas: epsilon-freeness and named-group structure of the master pattern, string-end patterns end with their quote. "
+         "Tiling reconstruction on an input product is the bounded stand-in.",
+    design_ref="DESIGN.md 5/C08",
+    note="ASSUMED contracts (bodies not verified): handle_end_progs, handle_fstring_progs, next_psuedo_matches (regex dispatch over re.Match objects and "
+         "the frame list) and re.match itself; three known findings (unterminated single-quote strings, multi-line format spec).",
+    technique="E1 postconditions/invariants (z3) + E3 regex lemmas (z3 regex solver)",
+)
+CHECKS["C09"] = dict(
+    engine="rx+pyvc", category="proof",
+    text="Lexeme languages of the real tokenizer patterns are proved equal to the running CPython's stdlib reference patterns (textual identity or z3 "
+         "regex equivalence: Number, Name, Comment, Whitespace, four string-end patterns), OPS = CPython's operators + exactly the documented xonsh "
+         "ones, longest-operator-first order, extra string prefixes all contain p, first-character disjointness of reordered alternatives; indentation "
+         "arithmetic (tab stops of 8, form feed reset) is proved from next_statement's body against the language reference. Token-stream equality with "
+         "tokenize.generate_tokens on ~4000 atom products x layouts is the bounded stand-in.",
+    design_ref="DESIGN.md 5/C09, 3.4",
+    note="assumed: re.match contract, regex priorities only where patterns are textually the reference, alphabet quotient for \\w, the C tokenizer "
+         "behaves as the stdlib reference patterns (A7).",
+    technique="regex-language obligations (z3 ReSort) on the real pattern strings + E1 contract on next_statement",
+)
+
 NOT_APPLICABLE_REASON = "not built yet (DESIGN.md section 8 build order); no claim is made"
 
 manifest = {
@@ -69,7 +127,11 @@ manifest = {
     "engines": [
         {"name": "pegir", "path": "engine/pegir.py, engine/implements.py, engine/pegfacts.py, engine/pegmemo.py", "serves_properties": ["C16", "C17", "C18", "C15"],
          "kind_free_text": "mechanical IR extraction of the generated parser methods + structural decision procedures"},
-        {"name": "pyvc", "path": "engine/pyvc.py, engine/pyexpr.py, engine/pyexec.py, engine/smt.py, contracts/*.py", "serves_properties": ["C15", "C17"],
+        {"name": "rx", "path": "engine/rx.py", "serves_properties": ["C08", "C09"],
+         "kind_free_text": "real regex strings -> SMT regular expressions (re._parser + z3 ReSort): equality/inclusion/disjointness/epsilon-freeness"},
+        {"name": "gramref", "path": "engine/gramref.py, spec/ref/python311.gram", "serves_properties": ["C01", "C02"],
+         "kind_free_text": "refinement of CPython's own grammar rule by rule incl. simple actions"},
+        {"name": "pyvc", "path": "engine/pyvc.py, engine/pyexpr.py, engine/pyexec.py, engine/smt.py, contracts/*.py", "serves_properties": ["C01", "C02", "C03", "C08", "C09", "C15", "C17"],
          "kind_free_text": "VC generator: symbolic execution of the real function bodies (ast) against sidecar contracts, z3/cvc5 back ends"},
     ],
     "checks": [],
